@@ -101,6 +101,18 @@ def case(ctx, i, rec):
     except Exception as e:
         rec.violation("transform-raised:" + type(e).__name__, f"{e!r}")
         return
+    # the maps act on each time separately: any order of the vector must give the same values
+    perm = rng.permutation(len(t))
+    try:
+        c_p = h.to_coalescent_timescale(t[perm])
+        b_p = h.to_natural_timescale(c[perm])
+        rec.count("shuffled_vectors_judged")
+        if not (np.array_equal(c_p, c[perm]) and np.array_equal(b_p, back[perm])):
+            j = int(np.argmax((c_p != c[perm]) | (b_p != back[perm])))
+            rec.violation("result-depends-on-order-of-the-time-vector",
+                          f"t={t[perm][j]!r}: {c_p[j]!r} in a shuffled vector, {c[perm][j]!r} in the sorted one (sizes {sizes}, breaks {breaks})")
+    except Exception as e:
+        rec.violation("transform-raised-on-unsorted-times:" + type(e).__name__, f"{e!r}")
     ref = np.array([float(coal(x, sizes, breaks)) for x in t])
     e1 = common.rel_err(c, ref)
     rec.maxi("to_coalescent_relerr", e1)
@@ -260,6 +272,6 @@ def post(ctx, agg):
 
 
 def reach(ctx, agg):
-    need = {"histories": 150, "round_trips_judged": 100, "breakpoints_judged": 100,
+    need = {"histories": 150, "shuffled_vectors_judged": 150, "round_trips_judged": 100, "breakpoints_judged": 100,
             "gamma_multi_epoch_judged": 50, "gamma_well_conditioned_judged": 20, "gamma_constant_size_judged": 20}
     return [f"{k} = {agg.cnt.get(k, 0)} < {v}" for k, v in need.items() if agg.cnt.get(k, 0) < v]
